@@ -215,4 +215,7 @@ NoStarvation == \A t \in Tasks : (t \in woken /\ st[t] = "I" /\ cur # t) ~> (cur
 -----------------------------------------------------------------------------
 \* generator: one line per distinct between-steps state (h hidden by VIEW)
 EmitState == IF cur = 0 /\ h # <<>> THEN PrintT(ToJson(h)) ELSE TRUE
+\* for the larger configurations: one line per distinct stalled state (a run
+\* of a whole task system to quiescence)
+EmitStalled == IF stl /\ h # <<>> THEN PrintT(ToJson(h)) ELSE TRUE
 =============================================================================
